@@ -84,6 +84,13 @@ impl Sub for Crash {
         // thread the first gate is never reached and this is just one more merge and commit.)
         let mut must_check: Vec<(usize, usize)> = vec![];
         if c.salt % 4 == 2 {
+            // (three more small commits, so that there are segments to merge and one to keep out of the merge)
+            for r in 0..3u8 {
+                for k in 0..3u8 {
+                    env.apply(&Op::Add(AddSpec { grp: (r + k) % NUM_GROUPS, words: vec![k % NUM_WORDS, r % NUM_WORDS], num: (r * 3 + k) as i16 }), cx)?;
+                }
+                env.apply(&Op::Commit, cx)?;
+            }
             // the segment with the most live documents stays out of the merge and gets a delete file first
             let mut seg_uids: Vec<(tantivy::index::SegmentId, Vec<u64>)> = vec![];
             {
